@@ -324,6 +324,10 @@ int mod_deregister(m_mod_t **mod, bool from_user) {
         if (ret == 0) {
             /* Stop module */
             stop(m, true);
+            if (m_mod_is(m, M_MOD_RUNNING | M_MOD_PAUSED)) {
+                /* its on_stop() started it again: a module being deregistered ends stopped */
+                stop(m, true);
+            }
             m->state = M_MOD_ZOMBIE;
             
             /* Free FS internal data */
